@@ -138,6 +138,7 @@ def run_parsers(prop, tier):
                 if g != "A":
                     jobs[g] = cross_jobs()
             enum_info = {"tuples": 0, "orderings": 0, "exhaustive_k": []}
+            ref_hashseeds = set()
             hs_of = {g: groups[g][0] for g in groups}
 
             def on_result(group, job, res):
@@ -168,6 +169,8 @@ def run_parsers(prop, tier):
                     return
                 kinds = res.get("kinds") or []
                 key = res.get("dkey")
+                if res.get("ref_hashseed") is not None:
+                    ref_hashseeds.add(res["ref_hashseed"])
                 if prop == "C14":
                     st = res.get("stats", {})
                     nontrivial = st.get("reruns", 0) > 0 or st.get("objects", 0) > 1 or st.get("cancel_stmt_fired", 0) > 0
@@ -214,13 +217,18 @@ def run_parsers(prop, tier):
             "exhaustive": False,
         }
         if prop == "C14":
-            cov["rule"] = ("one evaluation = one simulated history (2-9 ops: new / run / run with other kwargs / bad mode / dump / "
+            cov["rule"] = ("one evaluation = one simulated history (2-9 ops, marathon arm 25-60: new / new with the same text and other flags / "
+                           "new with a follow-up script for the previous object's tables / run / run with other kwargs / bad mode / dump / "
                            "parse_from_file, with cancel-before-statement-k, cancel-at-line-n and dump I/O faults) on successive "
-                           "parser objects in one process, every completed call compared with the pristine-process reference; "
+                           "parser objects in one forked process image in which no parser existed before; every completed call compared "
+                           "with the pristine-process reference and with a pristine process under another hash seed; "
                            "distinct = distinct (op-kind sequence incl. fired faults, workload sources); non-trivial = contains a re-run "
                            "on the same object, a second object, or a fired cancel")
             cov["faults_fired"] = {k: agg.stats[k] for k in ("cancel_stmt_fired", "cancel_line_fired", "dump_fault_fired")}
-            cov["probes"] = {k: agg.stats[k] for k in ("reruns", "mode_changes", "after_fault_checks", "cancel_in_multi", "exc_outcomes", "objects")}
+            cov["probes"] = {k: agg.stats[k] for k in ("reruns", "mode_changes", "after_fault_checks", "cancel_in_multi", "exc_outcomes", "objects",
+                                                       "refs", "refs_other_hashseed", "global_state_changed", "victims_run",
+                                                       "marathon_runs", "reflag_objects", "followup_objects")}
+            cov["reference_hash_seeds"] = sorted(set(str(x) for x in ref_hashseeds))
         else:
             cov["rule"] = ("one evaluation = one schedule of 2-4 parser objects (construct, run, [run]) under granularity O (atomic ops; "
                            "all orderings enumerated for k=2,3 on a set of workload tuples), S (statement-level seams) or L (line-level "
@@ -230,7 +238,11 @@ def run_parsers(prop, tier):
             cov["faults_fired"] = {"context_switches": agg.stats["switches"] + agg.stats["enum_switches"],
                                    "cancel_fired": agg.stats["cancel_fired"]}
             cov["probes"] = {"ctor_during_other_run": agg.stats["ctor_during_other_run"], "exc_outcomes": agg.stats["exc_outcomes"],
-                             "line_points": agg.stats["line_points"], "label_points": agg.stats["label_points"]}
+                             "line_points": agg.stats["line_points"], "label_points": agg.stats["label_points"],
+                             "then_objects_runs": agg.stats["then_objects_runs"], "marathon_runs": agg.stats["marathon_runs"],
+                             "same_text_tasks": agg.stats["same_text_tasks"], "followup_tasks": agg.stats["followup_tasks"],
+                             "runs_by_granularity": {g: agg.stats["gran_" + g] for g in ("O", "S", "L")},
+                             "line_focus": {k[6:]: v for k, v in sorted(agg.stats.items()) if k.startswith("focus_")}}
         core.write_evidence(prop, tier, base, "exploration", cov, wall_s, len(report.violations),
                             ["reference = same tree in a pristine forked process (a semantic change of the grammar is invisible by design)",
                              "CPython line events are the finest pre-emption granularity simulated",
